@@ -240,7 +240,8 @@ void c05_run(const Case &c, Result &r) {
       last_solve_optimal = s.rval == 0 && s.status == QS_LP_OPTIMAL;
       if (!definitive5(fst)) { r.label("scratch-nondefinitive"); solved_once = true; edited_since_solve = false; continue; }
       if (s.rval != 0 || !definitive5(s.status)) {
-        if (cfg.entry == 0)
+        if (cfg.entry == 0 && !model_is_moderate(m)) r.label("exact:nondefinitive-immoderate-data");   // outside C03's promise
+        else if (cfg.entry == 0)
           r.fail("resolve-nondefinitive:exact", strprintf("after history, QSexact_solver returned rval=%d status=%s but a fresh copy of the LP solves to %s", s.rval, stname5(s.status), stname5(fst)) + "\nlog: " + g_logbuf.substr(0, 600));
         else if (s.rval == 0 && s.status == QS_LP_ITER_LIMIT) r.label("direct:iter-cap");
         else if (s.rval != 0) r.fail("resolve-error:" + tag, strprintf("mpq_QSopt_%s returned error %d after edits (fresh copy: %s)", tag.c_str(), s.rval, stname5(fst)) + "\nlog: " + g_logbuf.substr(0, 600));
